@@ -105,6 +105,14 @@ Theorem C20_validateRequest_compares_cluster_id :
   /\ In "clusterID != s.server.ClusterID()"%string syncer_sync_conds.
 Proof. exact (conj validateRequest_compares syncer_compares). Qed.
 
+(* ... and nothing is done before the validation: apart from receiving on a stream, IsClosed and
+   UpdateServiceGCSafePoint's own lock, no handler calls anything on the server before the validating statement
+   (RegionHeartbeat alone first answers NOT_BOOTSTRAPPED, read-only, when no cluster is running) *)
+Theorem C20_nothing_before_validation :
+  forall h cs, In (h, cs) pre_validation_calls -> exempt h = false -> h <> "RegionHeartbeat"%string ->
+    forall c, In c cs -> In c harmless_before_validation.
+Proof. exact nothing_before_validation_pf. Qed.
+
 (* non-vacuity: three concurrent valid requests, a lost one, a fault, a reload, a late request; three members *)
 Example C20_nonvacuous :
   let p n := Payload (Some (1000 + n)) (Some (Region (2000 + n) true true [Peer (3000 + n) (1000 + n)])) in
@@ -132,3 +140,4 @@ Print Assumptions C20_cluster_id_stable.
 Print Assumptions C20_member_obtains_id.
 Print Assumptions C20_mismatched_id_refused.
 Print Assumptions C20_validateRequest_compares_cluster_id.
+Print Assumptions C20_nothing_before_validation.
